@@ -109,8 +109,8 @@ var cfgGen = rapid.Custom(func(t *rapid.T) hx.Cfg {
 })
 
 var domGen = rapid.Custom(func(t *rapid.T) string {
-	if rapid.IntRange(0, 9).Draw(t, "lit") == 0 {
-		return rapid.SampledFrom([]string{"[1.2.3.4]", "[IPv6:::1]"}).Draw(t, "iplit")
+	if rapid.IntRange(0, 5).Draw(t, "lit") == 0 {
+		return hx.ReCase(rapid.SampledFrom([]string{"[1.2.3.4]", "[IPv6:::1]", "[IPv6:2001:db8::1]", "[IPv6:2001:DB8::2]"}).Draw(t, "iplit"), rapid.SampledFrom([]uint64{0, 0, 2, 6, 1 << 9, 0xffff}).Draw(t, "litmask"))
 	}
 	d := rapid.SampledFrom(append([]string{"other.test", "test", "a.a.test"}, hx.Domains...)).Draw(t, "dom")
 	if rapid.Bool().Draw(t, "recase") {
